@@ -124,6 +124,9 @@ def playback(harness, profile, repo='/repo', timeout=1800, crate='kani', prefix=
     return out, log
 
 
+NOTES = []
+
+
 def witness_bin(profile, repo='/repo'):
     """build the native witness crate against the working tree; returns path or raises"""
     crate_dir = os.path.join(ROOT, 'witness')
@@ -134,6 +137,16 @@ def witness_bin(profile, repo='/repo'):
     e['CARGO_PROFILE_DEV_DEBUG_ASSERTIONS'] = 'true' if profile == 'debug' else 'false'
     e['CARGO_PROFILE_DEV_OVERFLOW_CHECKS'] = 'true' if profile == 'debug' else 'false'
     p = subprocess.run(['cargo', 'build', '--offline', '-q'], cwd=crate_dir, env=e, capture_output=True, text=True, timeout=1800)
+    if p.returncode != 0 and re.search(r'Kmer<[^>]*, u(64|128)>[^\n]*(Ord|PartialOrd)|(Ord|PartialOrd)[^\n]*Kmer<[^>]*, u(64|128)>', p.stderr):
+        # the tree under test no longer implements Ord for k-mers on wide storage: rebuild without the checks that need it, so
+        # that the rest of the stand-ins (word-sized k-mers included) still run on the real crate; the loss is reported
+        e2 = dict(e)
+        e2['RUSTFLAGS'] = (e.get('RUSTFLAGS', '') + ' --cfg no_wide_ord').strip()
+        e2['CARGO_TARGET_DIR'] = e['CARGO_TARGET_DIR'] + '-nowide'
+        p2 = subprocess.run(['cargo', 'build', '--offline', '-q'], cwd=crate_dir, env=e2, capture_output=True, text=True, timeout=1800)
+        if p2.returncode == 0:
+            NOTES.append('Kmer on u64 / u128 storage no longer implements Ord / PartialOrd in this tree: the wide-storage ordering checks were compiled out')
+            return os.path.join(e2['CARGO_TARGET_DIR'], 'debug', 'bioseq-witness')
     if p.returncode != 0:
         raise RuntimeError('witness build failed:\n' + p.stderr[-3000:])
     return os.path.join(e['CARGO_TARGET_DIR'], 'debug', 'bioseq-witness')
